@@ -544,6 +544,7 @@ type In struct {
 	Rel      int  // MsgSeqNum = T + Rel unless Abs > 0
 	Abs      int  // absolute MsgSeqNum
 	PossDup  bool // 43=Y with OrigSendingTime one minute earlier
+	OrigSame bool // 43=Y with OrigSendingTime equal to SendingTime (a replay within the same clock tick)
 	Body     []fixscan.Field
 	NewRel   *int            // SequenceReset: NewSeqNo = own MsgSeqNum + *NewRel
 	NewRelT  *int            // SequenceReset: NewSeqNo = T + *NewRelT
@@ -578,6 +579,8 @@ func (w *World) Materialise(d *In) []byte {
 	}
 	if d.PossDup {
 		f = append(f, fixscan.Field{43, "Y"}, fixscan.Field{122, fixscan.Stamp(now.Add(-time.Minute))})
+	} else if d.OrigSame {
+		f = append(f, fixscan.Field{43, "Y"}, fixscan.Field{122, fixscan.Stamp(now)})
 	}
 	body := append([]fixscan.Field{}, d.Body...)
 	switch d.Type {
@@ -683,6 +686,9 @@ type Event struct {
 	SendGroup bool
 	// SendGroupLast: a flat NoPartyIDs group (453) as the last body field
 	SendGroupLast bool
+	// Behind: a second inbound message already buffered in the inbound channel while In is handled (pipelined by
+	// the peer); its number is relative to T at the time In arrives
+	Behind *In
 }
 
 func (e Event) String() string { return e.Name }
@@ -800,9 +806,25 @@ func (w *World) applySync(e *Event) {
 		w.VS.Disconnected()
 	case "in":
 		b := w.Materialise(e.In)
+		if e.Behind != nil {
+			select {
+			case w.in <- quickfix.VerifMkIn(w.Materialise(e.Behind), w.Now()):
+			default:
+			}
+		}
 		w.LastIn, _ = fixscan.Scan(b)
 		w.LastInT = w.T()
 		w.VS.Incoming(quickfix.VerifMkIn(b, w.Now()))
+		if e.Behind != nil {
+			// what is still buffered is what the run loop reads next — unless the session has let go of the channel
+			select {
+			case m, ok := <-w.in:
+				if ok && !w.VS.Snapshot().InNil {
+					w.VS.Incoming(m)
+				}
+			default:
+			}
+		}
 	case "to":
 		switch e.To {
 		case quickfix.VerifNeedHeartbeat:
@@ -904,9 +926,16 @@ func (w *World) applyLoop(e *Event) {
 		l.Barrier()
 	case "in":
 		b := w.Materialise(e.In)
+		var b2 []byte
+		if e.Behind != nil {
+			b2 = w.Materialise(e.Behind)
+		}
 		w.LastIn, _ = fixscan.Scan(b)
 		w.LastInT = w.T()
 		w.in <- quickfix.VerifMkIn(b, w.Now())
+		if b2 != nil {
+			w.in <- quickfix.VerifMkIn(b2, w.Now()) // buffered while the loop is busy with the first
+		}
 		l.Barrier()
 	case "to":
 		if w.Cfg.Timed {
